@@ -6,6 +6,7 @@
 
 #include <algorithm>
 #include <cstdio>
+#include <limits>
 #include <vector>
 
 static unsigned long cases = 0, failures = 0;
@@ -161,9 +162,38 @@ for_type (const char *type, const std::vector<std::vector<int> >& cs)
   non_members<T, 0> (type, cs); non_members<T, 2> (type, cs); non_members<T, 5> (type, cs);
 }
 
+// Comparing an object with itself (or through an alias) must still go through the elements'
+// operator==: for element types whose equality is not reflexive (NaN) std::vector<T> says
+// v != v, and so must small_vector.
+template <unsigned N>
+static void
+self_comparison (void)
+{
+  const double nan = std::numeric_limits<double>::quiet_NaN ();
+  const double sets[4][3] = { { 1.0, 2.0, 3.0 }, { 1.0, nan, 3.0 }, { nan, nan, nan }, { 0.0, -0.0, 1.0 } };
+  for (unsigned k = 0; k < 4; ++k)
+    for (unsigned len = 0; len <= 3; ++len)
+    {
+      gch::small_vector<double, N> v (sets[k], sets[k] + len);
+      std::vector<double> m (sets[k], sets[k] + len);
+      const gch::small_vector<double, N>& alias = v;
+      const std::vector<double>& malias = m;
+      ++cases;
+      if ((v == v) != (m == m) || (v != v) != (m != m) || (v == alias) != (m == malias)
+          || (v < v) != (m < m) || (v <= v) != (m <= m) || (v > alias) != (m > malias)
+          || (v >= v) != (m >= m))
+        fail ("self comparison (non-reflexive ==)", "double", N, N, k, len);
+      gch::small_vector<double, N> w (v);
+      ++cases;
+      if ((v == w) != (m == m) || (v != w) != (m != m))
+        fail ("comparison with an equal copy (non-reflexive ==)", "double", N, N, k, len);
+    }
+}
+
 int
 main (void)
 {
+  self_comparison<0> (); self_comparison<2> (); self_comparison<5> ();
   const std::vector<std::vector<int> > cs = all_contents ();
   for_type<int> ("int", cs);
   for_type<plain> ("plain(==,<)", cs);
